@@ -8,6 +8,35 @@
    (simulation) and on its bounded BFS.                                                                            *)
 EXTENDS MCGPBFT
 
+\* ---- the concrete model with ReceiveMessage split into its two halves -------------------------------------------------------------
+\* One ReceiveMessage call of the code = receiveOne (tally update + one tryCurrentPhase) followed by postReceive (skip to a later round).
+\* When both halves move, the call performs TWO moves of the abstraction (e.g. PREPARE exit by a carried justification, then the round skip).
+\* TLC has no action composition, so for the refinement check the call is split into two consecutive sub-steps RReceive ; RSkip (nothing
+\* else may happen in between): the split model has exactly the behaviours of the atomic one, with the intermediate state made visible.
+VARIABLE pend                 \* << >> or <<p, r>>: postReceive(r) of participant p is still to run
+rvars == <<mvars, pend>>
+ReceiveNoSkip(p, m, to) ==
+  /\ m.i = inst[p] /\ Relevant(p, Strip(m))
+  /\ LET st0 == [R |-> rcv[p], J |-> justs[p], s |-> [LS(p) EXCEPT !.timedOut = @ \/ to], k |-> inst[p]] IN
+     \E st1 \in Absorb(p, st0, Strip(m), input[p]) :
+        /\ Install(p, st1)
+        /\ pend' = IF st1 = st0 THEN << >> ELSE <<p, m.r>>
+  /\ UNCHANGED <<inst, queue, input>>
+RReceive(p) == /\ phase[p] \notin {"INITIAL", "TERMINATED"}
+               /\ \E m \in NetI : \E to \in ToSet(p) :
+                    /\ ReceiveNoSkip(p, m, to)
+                    /\ vars' # vars
+                    /\ Rec("Receive", p, to, MJ(m))
+RSkip == /\ pend # << >>
+         /\ LET p == pend[1]
+                r == pend[2] IN
+            \E s2 \in SkipTo([p |-> p, k |-> inst[p], R |-> rcv[p], J |-> justs[p], inp |-> input[p]], LS(p), r) : Commit(p, s2)
+         /\ pend' = << >>
+         /\ UNCHANGED <<rcv, justs, inst, queue, input, hist>>
+RNext == IF pend # << >> THEN RSkip
+         ELSE \E p \in H : (MStart(p) /\ pend' = << >>) \/ RReceive(p) \/ (MAlarm(p) /\ pend' = << >>)
+RSpec == MInit /\ pend = << >> /\ [][RNext]_rvars
+
 AbsSt == [p \in H |->
             IF phase[p] = "INITIAL"
             THEN [phase |-> "INITIAL", round |-> 0, prop |-> Input[p], val |-> Bot, cands |-> {Base(Input[p])}, dec |-> Bot]
